@@ -257,3 +257,84 @@ contract("CountMinSketch.__init__@path", contexts=["CountMinSketch"], properties
          modifies=["self"],
          ensures=_onfp(_onpath(list(_pb.ensures))) + [("min_mode", "is_min_mode(self)"),
                   ("hash_function_kept_or_default", "self._hash_function == (hash_function if hash_function is not None else default_fnv_1a)")])
+
+
+# ---- the HEX channel (C05, C06): a hex text is modelled as the sequence of its digit values -------------------------------------
+def _hex_image(cells, width):
+    foot = f"{width} * self._bloom_length"
+    return [("length", f"len(result) == 2 * ({foot} + 20)"),
+            ("cells", "all(" + cells + " for c in range(0, self._bloom_length))"),
+            ("footer_big_endian",
+             f"be_bytes(unhex(result), {foot}, 8) == self._est_elements and be_bytes(unhex(result), {foot} + 8, 8) == self._els_added "
+             f"and f32_at_be(unhex(result), {foot} + 16) == f32(self._fpr)")]
+
+
+contract("BloomFilter.export_hex", contexts=["BloomFilter"], properties=["C05", "C06", "C19"],
+         returns="hex", requires=_EXP_REQ, modifies=[],
+         ensures=_hex_image("hex_byte(result, c) == self._bloom[c]", "1"))
+
+contract("BloomFilter.export_hex@CountingBloomFilter", contexts=_CB, properties=["C05", "C06", "C08", "C19"],
+         returns="hex", requires=_CEXP, modifies=[],
+         ensures=_hex_image("le_bytes(unhex(result), 4 * c, 4) == self._bloom[c]", "4"))
+
+_H = "unhex(hex_string)"
+_HEX_REQ = [("even_number_of_digits", "len(hex_string) % 2 == 0"), ("has_footer", f"len({_H}) >= 20"),
+            ("stored_geometry_usable",
+             f"0 < f32_at_be({_H}, len({_H}) - 4) < 1 and be_bytes({_H}, len({_H}) - 20, 8) >= 1 and "
+             f"bloom_k(be_bytes({_H}, len({_H}) - 20, 8), bloom_m(be_bytes({_H}, len({_H}) - 20, 8), f32_at_be({_H}, len({_H}) - 4))) >= 1 and "
+             f"bloom_m(be_bytes({_H}, len({_H}) - 20, 8), f32_at_be({_H}, len({_H}) - 4)) < 2**53")]
+_HEX_LOADED = [("estimated_elements", f"self._est_elements == be_bytes({_H}, len({_H}) - 20, 8)"),
+               ("elements_added", f"self._els_added == be_bytes({_H}, len({_H}) - 12, 8)"),
+               ("rate", f"self._fpr == f32_at_be({_H}, len({_H}) - 4)"), ("geometry", "geo_bloom(self)"),
+               ("hash_function_kept_or_default",
+                "self._hash_func == (hash_function if hash_function is not None else default_fnv_1a)")]
+contract("BloomFilter._load_hex", contexts=["BloomFilter"], properties=["C05", "C06", "C01"],
+         params={"hex_string": "hex", "hash_function": "opt[hashfunc]"},
+         requires=_HEX_REQ + [("in_memory_byte_cells", "self._typecode == 'B' and self._bits_per_elm == 8.0")],
+         modifies=_BMODS,
+         ensures=_HEX_LOADED + [("array_length_field", "self._bloom_length == cdiv(self._num_bits, 8)"),
+                                ("cells_are_all_the_leading_bytes", f"len(self._bloom) == len({_H}) - 20 and "
+                                 f"all(self._bloom[c] == hex_byte(hex_string, c) for c in range(0, len(self._bloom)))")])
+contract("BloomFilter._load_hex@CountingBloomFilter", contexts=_CB, properties=["C05", "C06", "C08"],
+         params={"hex_string": "hex", "hash_function": "opt[hashfunc]"},
+         requires=_HEX_REQ + [("whole_cells", f"(len({_H}) - 20) % 4 == 0"), ("uint32_cells", "self._typecode == 'I' and self._bits_per_elm == 1.0")],
+         modifies=_BMODS,
+         ensures=_HEX_LOADED + [("array_length_field", "self._bloom_length == self._num_bits"),
+                                ("cells_are_all_the_leading_uint32s", f"4 * len(self._bloom) == len({_H}) - 20 and "
+                                 f"all(self._bloom[c] == le_bytes({_H}, 4 * c, 4) for c in range(0, len(self._bloom)))")])
+
+_GEOM_OK_BE = ("0 < f32_at_be(d, 16) < 1 and be_bytes(d, 0, 8) >= 1 and "
+               "bloom_k(be_bytes(d, 0, 8), bloom_m(be_bytes(d, 0, 8), f32_at_be(d, 16))) >= 1")
+contract("BloomFilter._parse_footer@be", kind="classmethod", contexts=["BloomFilter", "CountingBloomFilter"],
+         properties=["C05", "C06", "C01"],
+         params={"stct": "struct:>QQf", "d": "bytes"}, returns="tuple[int,int,float,int,int]",
+         requires=[("twenty_bytes", "len(d) >= 20"), ("stored_geometry_usable", _GEOM_OK_BE)],
+         modifies=[],
+         ensures=[("estimated_elements_field", "result[0] == be_bytes(d, 0, 8)"),
+                  ("elements_added_field", "result[1] == be_bytes(d, 8, 8)"),
+                  ("rate_field", "result[2] == f32_at_be(d, 16)"),
+                  ("geometry_rederived_as_the_constructor_does",
+                   "result[4] == bloom_m(result[0], result[2]) and result[3] == bloom_k(result[0], result[4])"),
+                  ("usable", "result[3] >= 1 and result[4] >= 1")])
+
+_LIH = {"filepath": "none", "hash_function": "opt[hashfunc]", "hex_string": "hex", "est_elements": "opt[int]",
+        "false_positive_rate": "opt[float]"}
+_INITH = {"est_elements": "opt[int]", "false_positive_rate": "opt[float]", "filepath": "none", "hex_string": "hex",
+          "hash_function": "opt[hashfunc]"}
+_HB = _C["BloomFilter._load_hex"]
+_HC = _C["BloomFilter._load_hex@CountingBloomFilter"]
+contract("BloomFilter._load_init@hex", contexts=["BloomFilter"], properties=["C05", "C01"],
+         params=_LIH, requires=list(_HB.requires), modifies=_BMODS, ensures=list(_HB.ensures))
+contract("BloomFilter.__init__@hex", contexts=["BloomFilter"], properties=["C05", "C01"],
+         params=_INITH, requires=list(_HB.requires)[:3], modifies=["self"],
+         ensures=list(_HB.ensures) + [("in_memory", "self._on_disk == False and self._typecode == 'B'")])
+contract("CountingBloomFilter._load_init@hex", contexts=_CB, properties=["C05", "C08"],
+         params=_LIH, requires=list(_HC.requires)[:4],
+         modifies=_BMODS + ["self._bits_per_elm", "self._type", "self._typecode"],
+         ensures=list(_HC.ensures) + [("counting", "self._typecode == 'I' and self._bits_per_elm == 1.0")])
+contract("BloomFilter.__init__@hexC", contexts=_CB, properties=["C05", "C08"],
+         params=_INITH, requires=list(_HC.requires)[:4], modifies=["self"],
+         ensures=list(_HC.ensures) + [("counting", "self._typecode == 'I' and self._on_disk == False")])
+contract("CountingBloomFilter.__init__@hex", contexts=_CB, properties=["C05", "C08"],
+         params=_INITH, requires=list(_HC.requires)[:4], modifies=["self"],
+         ensures=list(_HC.ensures) + [("counting", "self._typecode == 'I' and self._on_disk == False")])
